@@ -310,10 +310,21 @@ func cxTable(toks []obsTok) string {
 			continue
 		}
 		seen[t.val] = true
-		c, err := strconv.ParseComplex(t.val, 128)
-		if err != nil {
+		// the value the repaired parser gives the literal: real ± imaginary, each float with its own sign
+		m := cdc.Scanner().MatchToken(cdc.ComplexToken, t.val)
+		if m.GetSize() < 3 {
 			continue
 		}
+		f1, f2 := m.GetValue(2), m.GetValue(3)
+		re, err1 := strconv.ParseFloat(f1, 64)
+		im, err2 := strconv.ParseFloat(f2, 64)
+		if err1 != nil || err2 != nil {
+			continue
+		}
+		if t.val[1+len(f1)] == '-' {
+			im = -im
+		}
+		c := complex(re, im)
 		n := complex(real(c)+0, imag(c)+0)
 		out = append(out, fmt.Sprintf("(%s, %s, (%s, %s))", encFloatBits(real(c)), encFloatBits(imag(c)), encFloatBits(cmplx.Abs(n)), encFloatBits(cmplx.Phase(n))))
 	}
@@ -329,7 +340,8 @@ var litHex = []string{"0x0", "0x1", "0xa", "0xff", "0xdeadbeef", "0xffffffffffff
 var litFloats = []string{"0.0", "-0.0", "+0.0", "1.5", "-1.25", "+3.0", "0.1", "0.125", "123.456", "1.0e+10", "1.0E-7", "2.5E+3", "1.1E-100", "2.2E+200",
 	"1.7976931348623157e+308", "5.0e-324", "4.9E-324", "1.0e-999", "0.30000000000000004", "9007199254740993.0", "1.0e+5", "1.0e+15", "1.0e+123",
 	"10.01", "0.5e+1", "-2.0E-12", "100.0"}
-var litComplex = []string{"(1.5+2.5i)", "(0.0+0.0i)", "(-1.5-2.5i)", "(3.0-4.0i)", "(1.0e+5-2.0E-3i)", "(+1.0+-2.0i)", "(-0.0-0.0i)", "(1.0+2.0e+10i)",
+var litComplex = []string{"(1.0--2.0i)", "(1.0++2.0i)", "(1.0-+2.0i)", "(1.0+-2.0i)", "(-1.0--0.0i)", "(+1.5e+3-+2.5E-3i)", "(1.5E-3--2.5e+30i)", "(0.0++0.0i)", "(0.0-+0.0i)",
+	"(1.0e+308--1.0e+308i)", "(5.0e-324-5.0e-324i)", "(1.5+2.5i)", "(0.0+0.0i)", "(-1.5-2.5i)", "(3.0-4.0i)", "(1.0e+5-2.0E-3i)", "(+1.0+-2.0i)", "(-0.0-0.0i)", "(1.0+2.0e+10i)",
 	"(0.25-0.5i)", "(1.0E-7+1.0E+7i)"}
 var litRunes = []string{`'a'`, `'Z'`, `'0'`, `' '`, `'"'`, `'\''`, `'\\'`, `'\n'`, `'\t'`, `'\a'`, `'\b'`, `'\f'`, `'\r'`, `'\v'`, `'\x41'`, `'\xff'`, `'\x00'`,
 	`'☺'`, `'é'`, `'\U0001f600'`, `'\U0010ffff'`, `'☺'`, `'😀'`, `'é'`, `'['`, `','`, `'퟿'`, `''`}
@@ -340,8 +352,7 @@ var litWords = []string{"true", "false", "nil"}
 
 // literals that the scanner accepts but that have no exact value: must be rejected
 var litInexact = []string{"99999999999999999999", "-9223372036854775809", "9223372036854775808", "+9223372036854775808", "0x10000000000000000",
-	"0xfffffffffffffffff", `"abc\ud800"`, `"\'"`, `'\"'`, `'\ud800'`, `'\udfff'`, `'\U00110000'`, `"\U00110000"`, `'\Uffffffff'`, "(1.0--2.0i)", "(1.0++2.0i)",
-	"(1.0-+2.0i)", "1.0e+999", "-1.0e+999", "(1.0e+999+1.0i)", "(1.0+1.0e+999i)", `"\q"`, `"\"`, `'\'`, `"\x4"`, `"\x4g"`, `"\u12"`, `"a\`, `"\8"`, `"\400"`, `"\12"`,
+	"0xfffffffffffffffff", `"abc\ud800"`, `"\'"`, `'\"'`, `'\ud800'`, `'\udfff'`, `'\U00110000'`, `"\U00110000"`, `'\Uffffffff'`, "(1.0--1.0e+999i)", "(1.0e+999++2.0i)", "1.0e+999", "-1.0e+999", "(1.0e+999+1.0i)", "(1.0+1.0e+999i)", `"\q"`, `"\"`, `'\'`, `"\x4"`, `"\x4g"`, `"\u12"`, `"a\`, `"\8"`, `"\400"`, `"\12"`,
 	`"abc\"`, `"\U0001f60"`}
 
 var contextsAll = []string{"Array", "Catalog", "List", "Map", "Queue", "Set", "Stack"}
@@ -409,7 +420,7 @@ func (g *docGen) intrinsic() string {
 		return g.pickLit(litFloats)
 	case 7:
 		if g.r.chance(1, 3) {
-			return "(" + g.pickLit(litFloats) + []string{"+", "-"}[g.r.intn(2)] + strings.TrimLeft(g.pickLit(litFloats), "+-") + "i)"
+			return "(" + g.pickLit(litFloats) + []string{"+", "-"}[g.r.intn(2)] + g.pickLit(litFloats) + "i)"
 		}
 		return g.pickLit(litComplex)
 	case 8, 9:
@@ -652,7 +663,7 @@ var coreTexts = []string{
 	"\t", "[\t](List)", "[ ]\t(List)", "\r\n", "[1,\r\n2](List)", "\x00", "\a", "\b", "\f", "\v", "\x1b", "\x7f", "\xff", "[\xff](List)", "\"\xff\"", "'\xff'", "\xc3\x28", "\xe2\x82", "é", "[é](List)",
 	"[1, 2](List)\n\n\n", "[1, 2](List)\n \n", "[1, 2](List) \n", "[1, 2](List)\n1", "[1, 2](List)\n\n[", "\n[1](List)", " [1](List)", "[  1  ,  2  ](  List  )",
 	"[\n    1\n\n    2\n](List)", "[\n    1\n    2\n\n](List)", "[\n    1,\n    2\n](List)", "[1,\n2](List)", "[1\n, 2](List)",
-	"[99999999999999999999](List)", "[-9223372036854775809](List)", "[0x10000000000000000](List)", "[1.0e+999](List)", "[(1.0--2.0i)](List)", "[\"abc\\ud800\"](List)", "['\\xff'](List)",
+	"[99999999999999999999](List)", "[-9223372036854775809](List)", "[0x10000000000000000](List)", "[1.0e+999](List)", "[(1.0--2.0i)](List)", "[(1.0++2.0i), (1.0-+2.0i), (1.0+-2.0i), (-0.0--0.0i)](List)", "[(1.5e+3--2.5E-3i): (+1.0E+2++1.0e-2i)](Catalog)", "[\"abc\\ud800\"](List)", "['\\xff'](List)",
 	"[1, 2, 3, 4, 5, 6, 7, 8, 9, 10, 11, 12, 13, 14, 15, 16, 17](Queue)", "[1, 2, 3, 4, 5, 6, 7, 8, 9, 10, 11, 12, 13, 14, 15, 16, 17, 18, 19, 20](Stack)",
 	"[$, 2, 3, 4, 5, 6, 7, 8, 9, 10, 11, 12, 13, 14, 15, 16, 17](List)", "[1 2, 3, 4, 5, 6, 7, 8, 9, 10, 11, 12, 13, 14, 15, 16, 17](List)", "[1, 2](Catalog), 3, 4, 5, 6, 7, 8, 9, 10, 11, 12, 13, 14, 15, 16, 17",
 	"[1, 2, 3, 4, 5, 6, 7, 8](List)$", "[1, 2, 3, 4, 5, 6, 7](List)x", "[1, 2, 3, 4, 5, 6](List), , , , , , , , , , , , , , , , ,",
